@@ -128,6 +128,14 @@ func init() {
 		NotCovered: "the sums themselves; reward distribution; anything numeric",
 	})
 	register(&PropertySpec{
+		ID: "C19",
+		Rules: []RuleSpec{
+			{"proposal-dominators", "verifyBlock accepts only behind the height/timestamp/size/system-fee checks and per-transaction verification; verifyRequest only behind prev-hash/version/state-root/count checks; the block witness takes commits of the current view only, in validator order; the proposed transaction set is cut after (not before) adding the transaction that overflows a limit", ruleProposalDominators},
+			{"loop-confinement", "dBFT state and the service's loop-owned fields are not touched by anything reachable from the methods other goroutines call (OnPayload, OnTransaction, Shutdown, Name)", ruleLoopConfinement},
+		},
+		NotCovered: "agreement and liveness — entirely; they live in nspcc-dev/dbft and in message timing",
+	})
+	register(&PropertySpec{
 		ID: "C07",
 		Rules: []RuleSpec{
 			{"admit-dominators", "every admission check of verifyAndPoolTx (script, expiry, VUB window, policy, size, network fee, on-chain/conflict record, witnesses with the remaining fee, attributes) gates pool.Add on every CFG path", ruleAdmitDominators},
